@@ -37,11 +37,28 @@ def load_contracts(prop):
     return REGISTRY.get(prop, [])
 
 
-def explore(cdef, interp, max_paths=400):
+def revalidate(cdef, ob):
+    """re-explore the single path of a `sat` obligation and confront the solver's counter-model with the sums and universal facts
+    the quantifier-free obligation left out (Ctx._validate_here); returns 'genuine' | 'refuted' | 'unknown'"""
+    try:
+        interp = Interp(make_models())
+        obs, info = explore(cdef, interp, only_prefix=list(ob.path), target=(ob.name, (ob.meta or {}).get("seq")))
+        return info.get("validation") or "unknown"
+    except Exception:
+        if os.environ.get("VERIF_DEBUG"):
+            traceback.print_exc()
+        return "unknown"
+    finally:
+        Ctx.current = None
+
+
+def explore(cdef, interp, max_paths=400, only_prefix=None, target=None):
     """symbolic exploration of one contract; returns (obligations, info)"""
     c = Ctx(concrete=False)
     Ctx.current = c
-    c.worklist = [[]]
+    c.worklist = [[]] if only_prefix is None else [only_prefix]
+    c.validate_target = target
+    c.validation_result = None
     info = {"paths": 0, "undecided": [], "aborted": 0, "covers": []}
     vc = SymVC(cdef, interp)
     vc.c = c
@@ -80,6 +97,9 @@ def explore(cdef, interp, max_paths=400):
         if len(c.obligations) > n_before:
             last = c.obligations[-1]
             info["covers"].append(last)
+        if only_prefix is not None:
+            info["validation"] = c.validation_result
+            break
     Ctx.current = None
     info["ctx"] = c
     return c.obligations, info
@@ -344,10 +364,23 @@ def run(prop, tier="quick", seed=0, replay=None, only=None):
                 o.meta["sum_validation"] = r
             if os.environ.get("VERIF_DEBUG"):
                 print("validate_sums:", name, checks)
+            # ... and then with the universal facts (instantiated only at the index terms that occurred) and the sums together, on
+            # the re-explored path of the obligation
+            sat_obs = [o for o in obs if o.verdict == "sat"]
+            for i_, (o, r) in enumerate(zip(sat_obs, checks)):
+                if r in ("genuine", "no-sums") and o.kind != "cover":
+                    cdv = [c_ for c_ in contracts if c_.name == o.meta.get("contract")]
+                    if cdv:
+                        r2 = revalidate(cdv[0], o)
+                        o.meta["countermodel_validation"] = r2
+                        if r2 in ("refuted", "unknown"):
+                            checks[i_] = r2
+            if os.environ.get("VERIF_DEBUG"):
+                print("countermodel validation:", name, checks)
             if checks and all(r in ("refuted", "unknown") for r in checks):
-                undecided.append(f"{name}: the solver's counter-model treats the finite sums in the obligation as unrelated constants and "
-                                 + ("no counter-model survives once they are given their meaning for the ranges tried (abstraction artefact)"
-                                    if "refuted" in checks else "could not be checked against their meaning"))
+                undecided.append(f"{name}: the solver's counter-model ignores the meaning of the finite sums / the universal facts of "
+                                 f"the obligation and " + ("no counter-model survives once they are taken into account (abstraction artefact)"
+                                                           if "refuted" in checks else "could not be confirmed against them"))
                 continue
             failed_names.append(name)
             if any(v[0] == name for v in violations):
